@@ -22,6 +22,7 @@ ASSUMPTIONS = ['formulation as in the statement (reduced kernel, radius inside R
 
 
 RULE = RULE + ' One case per two-wire structure fills the matrix of the same object a second time at the same frequency.'
+RULE = RULE + ' One-segment end stubs / hat arms on a six-segment host (7 orientations and listings, thin and thick radius, free space and ground).'
 
 
 def bounds(tier, seed):
